@@ -144,3 +144,41 @@ func TestVerifBounded_FormatWhitespaceOnlyLine(t *testing.T) {
 	}
 	fmt.Printf("BOUNDED-OK cases=%d\n", cases)
 }
+
+// Display formats that rewrite the numbers (C04, C05): under a commodity / D format the written number differs from the one
+// read ("12000" -> "12 000,00"), so every width the formatter measures before writing must be the width of the written
+// text. Quantities must stay exact (also with fewer decimals in the format than in the amount), the amounts share one
+// column, and the second pass changes nothing.
+func TestVerifBounded_FormatIdempotentDisplayFormats(t *testing.T) {
+	dirs := []string{"commodity 1 000,00 EUR\n\n", "commodity EUR\n  format 1 000,00 EUR\n\n", "D 1.000,00 EUR\n\n", "commodity 1,000.00 EUR\n\n", "commodity 1000, EUR\n\n", "commodity EUR 1.000,0\n\n"}
+	firsts := []string{"assets:bank:checking  12000 EUR", "assets:bank:checking  12000 EUR = 12000 EUR", "assets:bank:checking  1234567,891 EUR", "assets:bank:checking  -0,5 EUR = -12000,25 EUR", "assets:broker  10 AAPL @ 1500 EUR", "assets:broker  10 AAPL @@ 15000,5 EUR = 10 AAPL"}
+	seconds := []string{"assets:cash  50 EUR = 50 EUR", "assets:cash  -50,125 EUR", "assets:cash  5 EUR @ 1,1 USD = 5000 EUR", "assets:cash"}
+	cases, accepted := 0, 0
+	for _, d := range dirs {
+		for _, f := range firsts {
+			for _, s := range seconds {
+				doc := d + "2024-01-15 opening balances\n    " + f + "\n    " + s + "\n    equity:opening\n"
+				cases++
+				want, nerr := journalSummary(doc)
+				if nerr != 0 {
+					continue
+				}
+				accepted++
+				f1 := formatOnce(doc)
+				if got, _ := journalSummary(f1); got != want {
+					fmt.Printf("BOUNDED-FAIL formatting changes what the journal says: %q is rewritten to %q\nbefore:\n%safter:\n%s", doc, f1, want, got)
+					return
+				}
+				if cols := amountColumns(f1); len(cols) > 1 {
+					fmt.Printf("BOUNDED-FAIL the amounts of the formatted text do not share one column (%v): %q -> %q\n", cols, doc, f1)
+					return
+				}
+				if f2 := formatOnce(f1); f2 != f1 {
+					fmt.Printf("BOUNDED-FAIL formatting is not idempotent: %q -> %q -> %q\n", doc, f1, f2)
+					return
+				}
+			}
+		}
+	}
+	fmt.Printf("BOUNDED-OK cases=%d accepted=%d\n", cases, accepted)
+}
